@@ -338,7 +338,7 @@ def twoArgRep (R1 R2 : ArithTy) : FltTy :=
 
 /-! ### Inverses (math.hh:230-299) -/
 
-/-- The literal in `constexpr R threshold{1'000'000};`. -/
+/-- The literal in `constexpr R threshold = 1'000'000;` (and in the rep guard above it). -/
 def inverseThresholdLiteral : Nat := 1000000
 
 /-- `UNITY.in<Rep>(associated_unit(target_units) * U{})`, `K` the magnitude of
@@ -384,9 +384,10 @@ def inverseIn (TR R : ArithTy) (K : Mag) (x : Val) : Res Val :=
     -- the quotient has the type of the division; `static_cast<TargetRep>` converts it
     (divide Rep R k x).bind fun q => staticCast q TR
 
-/-- `constexpr R threshold{1'000'000};` (math.hh:268-272): for an integral `R`
-that cannot hold the literal the static_assert fires and the program is ill-formed
-(`none`); for floating `R` the literal is exactly representable, so it is accepted. -/
+/-- `static_assert(is_floating_point<R> || numeric_limits<R>::max() >= 1'000'000, …);
+constexpr R threshold = 1'000'000;` (math.hh:268-272): for an integral `R` that cannot hold the
+literal the assertion fires and the program is ill-formed (`none`); for floating `R` the literal
+is exactly representable. -/
 def thresholdOf (R : ArithTy) : Option Val :=
   match R with
   | .int t => if t.inRange (inverseThresholdLiteral : Int) then some (.i (inverseThresholdLiteral : Int)) else none
